@@ -561,7 +561,10 @@ class Net(object):
                         return
                     self.is_closed = True
                 if not self.is_defunct:
-                    self.error_all_requests(ConnectionShutdown("Connection to %s was closed" % self.endpoint))
+                    # same contract as the shipped reactors' close()
+                    exc = ConnectionShutdown("Connection to %s was closed" % self.endpoint)
+                    self.error_all_cp_sessions(exc)
+                    self.error_all_requests(exc)
                     self.connected_event.set()
 
             def __repr__(self):
